@@ -249,7 +249,7 @@ const c13RuleMore = " FURTHER (c13_patch.go, c13_more.go): patch: every patch ca
 
 func c13RunPatchRFC(c *Ctx) {
 	if !strings.Contains(c.P.Rule, c13RuleMore) {
-		c.P.Rule += c13RuleMore
+		c.P.Rule += c13RuleMore + c13RuleLook
 	}
 	r := c.Rng
 	g := c13Gen()
